@@ -18,7 +18,7 @@ EXTENDS Schema, TLC
 Simple == {"INTEGER", "REAL", "NUMBER", "STRING", "BOOLEAN", "LOGICAL", "BINARY"}
 Lit(b) ==
   CASE b = "INTEGER" -> <<"0", "7", "-7", "+7", "007", "2147483648", "-9223372036854775806", "1000000000000000">>
-    [] b = "REAL"    -> <<"0.", "1.5", "-1.5", "1.E5", "1.5E-3", "2.5E+10", "0.1">>
+    [] b = "REAL"    -> <<"0.", "1.5", "-1.5", "1.E5", "1.5E-3", "2.5E+10", "0.1", "2.E-308", "-1.E+300">>
     [] b = "NUMBER"  -> <<"3.5", "7.", "-2.5E3">>
     \* (text that looks like Part 21 syntax comes first: a scanner that looks for ; ( ) ' # must not find it inside a string)
     [] b = "STRING"  -> <<"'a;b'", "'with #1 (;) /* x */'", "'abc'", "''", "'it''s;'", "'$'", "'back\\\\slash'", "');'">>
